@@ -25,6 +25,18 @@ CLAIMS = {
   "technique": "static analysis: typestate/ownership dataflow (leak, null-check, dangling slot, failure atomicity) on clang CFG",
   "design_ref": "DESIGN.md section 4, C14",
  },
+ "C06": {
+  "text": "Static typestate analysis of every handler path in network_read/write/accept/connect: exactly one disposition per path "
+          "(one upstream callback then release; continuation; successful re-arm and return 0; fatal release), no use after release, "
+          "cancel routines cover every registration kind that can be pending; plus the structural necessary conditions of "
+          "byte-exactness: MSG_NOSIGNAL, the exact would-block errno set, EOF routing, identical re-arm, address-cursor advance, "
+          "and the transfer window buf+bufpos/buflen-bufpos with bufpos advanced by exactly the kernel's answer. All kernel answer "
+          "sequences reduce to which CFG edges are taken, and every edge is analysed.",
+  "note": "Trusted: recv/send/accept/connect contracts, the REARM/CANCEL tables. Not decided: kernel behaviour; allocation-failure "
+          "'fatal' paths are accepted as a disposition (C14 covers their leak discipline).",
+  "technique": "static analysis: callback-linearity typestate on clang CFG + sibling/argument agreement rules",
+  "design_ref": "DESIGN.md section 4, C06",
+ },
 }
 
 NOT_APPLICABLE = {
